@@ -1,6 +1,7 @@
 import PercevalModel.Proto
 import PercevalModel.Model.C17
 import PercevalModel.Model.C17X
+import PercevalModel.Model.C17R
 
 /-
   C17 driver.  Two requests:
@@ -18,6 +19,14 @@ import PercevalModel.Model.C17X
          | ["td"] | ["ro"] | ["rs", r] | ["n", "<name>"|null] | ["y", h, [r, …], rh, d]
     {"fixed": b, "delay": D, "syncclock": {"d": d, "now": t, "fuel": n, "rs": [r, …]}} -> {"outs": […], "end": e}
         the clocked polling loop of execute_sync on a job just sent at time t (previous refresh 0)
+    {"fixed": b, "rops": [rop, …]}                                -> {"outs": [s₁, …]}   one history of the
+        results machine (`Model/C17R.lean`, part R)
+  rop  = op other than "g" | ["G", r1, r2, body]
+  body = ["h", code] | ["c"] | ["nokey"] | ["notstr"] | ["badjson"] | ["p", payload]
+  payload = null | ["num", n] | ["str", bool] | ["list", n] | ["dict", tok|null, [[tok|null, iter|null], …]|null, ctx, bool]
+  iter = [[name, n], …];  ctx = ["absent"] | ["null"] | ["nomap"] | ["map", "good"|"noattr"|"nomodule", iter|null]
+    {"fixed": b, "delay": D, "kops": [[now1, now2, op], …]}       -> {"outs": [s₁, …]}   one history of the
+        clocked machine (`Model/C17R.lean`, part K): every operation under the throttle
   Identifiers, message tokens and result tokens are not transmitted: the step at (1-based) position k
   of a history uses k for all three (the harness' fake server does the same).
 -/
@@ -267,8 +276,142 @@ def runSyncClock (fixed : Bool) (delay : Int) (j : Json) : Except String Json :=
                         Json.str (resStr o.res ++ "|" ++ ",".intercalate (o.calls.map callStr)))),
                      ("end", Json.str (endStr e))]
 
+/-! ### the results machine and the clocked machine (`Model/C17R.lean`) -/
+
+def parseIter (j : Json) : Except String (List (String × Nat)) := do
+  (← j.getArr?).toList.mapM fun kv => do
+    let a ← kv.getArr?
+    return (← argStr a 0, ← argNat a 1)
+
+def optIter (j : Json) : Except String (Option (List (String × Nat))) :=
+  match j with
+  | .null => pure none
+  | v => do return some (← parseIter v)
+
+def optTok (j : Json) : Except String (Option RV) :=
+  match j with
+  | .null => pure none
+  | v => do return some (.raw (← v.getNat?))
+
+def parseCtx (j : Json) : Except String Ctx := do
+  let (t, a) ← tag j
+  match t with
+  | "absent" => return .absent
+  | "null" => return .null
+  | "nomap" => return .noMapping
+  | "map" =>
+    let fn ← match ← argStr a 1 with
+      | "good" => pure Fn.good
+      | "noattr" => pure Fn.noAttr
+      | "nomodule" => pure Fn.noModule
+      | x => throw s!"bad mapping function {x}"
+    return .mapping fn (← optIter (← arg a 2))
+  | _ => throw s!"bad context {t}"
+
+def parsePayload (j : Json) : Except String Payload := do
+  if j.isNull then return .null
+  let (t, a) ← tag j
+  match t with
+  | "num" => return .num (← argNat a 1)
+  | "str" => return .str (← (← arg a 1).getBool?)
+  | "list" => return .list (← argNat a 1)
+  | "dict" =>
+    let rl ← match ← arg a 2 with
+      | .null => pure none
+      | v => do
+        let items ← (← v.getArr?).toList.mapM fun it => do
+          let b ← it.getArr?
+          return (⟨← optTok (← arg b 0), ← optIter (← arg b 1)⟩ : Item)
+        pure (some items)
+    return .dict ⟨← optTok (← arg a 1), rl, ← parseCtx (← arg a 3), ← (← arg a 4).getBool?⟩
+  | _ => throw s!"bad payload {t}"
+
+def parseRBody (j : Json) : Except String RBody := do
+  let (t, a) ← tag j
+  match t with
+  | "h" => return .http (← argNat a 1)
+  | "c" => return .conn
+  | "nokey" => return .noKey
+  | "notstr" => return .notStr
+  | "badjson" => return .badJson
+  | "p" => return .payload (← parsePayload (← arg a 1))
+  | _ => throw s!"bad results body {t}"
+
+def parseROp (j : Json) (k : Nat) : Except String ROp := do
+  let (t, a) ← tag j
+  match t with
+  | "G" => return .getResults (← parseResp k (← arg a 1)) (← parseResp k (← arg a 2)) (← parseRBody (← arg a 3))
+  | "g" => throw "the results machine has its own get_results (G)"
+  | _ => return .base (← parseOp j k)
+
+def iterStr (l : List (String × Nat)) : String := ",".intercalate (l.map fun kv => s!"{kv.1}={kv.2}")
+
+def rvStr : RV → String
+  | .raw t => toString t
+  | .mapped v args => "M(" ++ rvStr v ++ "|" ++ iterStr args ++ ")"
+
+def optRvStr : Option RV → String
+  | some v => rvStr v
+  | none => "-"
+
+def ctxStr : Ctx → String
+  | .absent => "absent" | .null => "null" | .noMapping => "nomap" | .mapping _ _ => "map"
+
+def payloadStr : Payload → String
+  | .null => "null"
+  | .num n => s!"num:{n}"
+  | .str b => if b then "str:abc" else "str:"
+  | .list n => s!"list:{n}"
+  | .dict d =>
+    "dict:" ++ optRvStr d.results ++ ":" ++
+      (match d.rlist with
+       | none => "-"
+       | some items => "[" ++ ";".intercalate (items.map fun it =>
+           optRvStr it.res ++ "/" ++ (match it.iter with | some i => iterStr i | none => "-")) ++ "]")
+      ++ ":" ++ ctxStr d.ctx ++ ":" ++ (if d.extra then "1" else "0")
+
+def rresStr : RRes → String
+  | .base r => resStr r
+  | .value p => "val:" ++ payloadStr p
+  | .raised (.base e) => s!"exc:{excStr e}"
+  | .raised .jsonDecode => "exc:JSONDecodeError"
+  | .raised .attribute => "exc:AttributeError"
+  | .raised .moduleNotFound => "exc:ModuleNotFoundError"
+
+def runROps (fixed : Bool) (ops : Array Json) : Except String (Array String) := do
+  let mut s := rinit
+  let mut outs : Array String := #[]
+  let mut k := 1
+  for oj in ops do
+    let op ← parseROp oj k
+    let (s', o) := rstep fixed s op
+    outs := outs.push (rresStr o.res ++ "|" ++ idStr s'.job.id ++ "|" ++ shown s'.job ++ "|" ++
+      ",".intercalate (o.calls.map callStr))
+    s := s'
+    k := k + 1
+  return outs
+
+def runKOps (fixed : Bool) (delay : Int) (ops : Array Json) : Except String (Array String) := do
+  let mut t := kinit
+  let mut outs : Array String := #[]
+  let mut k := 1
+  for oj in ops do
+    let a ← oj.getArr?
+    let op ← parseOp (← arg a 2) k
+    let (t', o) := kstep fixed delay t ⟨← (← arg a 0).getInt?, ← (← arg a 1).getInt?, op⟩
+    outs := outs.push (outStr t'.job o)
+    t := t'
+    k := k + 1
+  return outs
+
 def handleE (j : Json) : Except String Json := do
   let fixed ← boolOf j "fixed"
+  if let .ok rops := arrOf j "rops" then
+    let outs ← runROps fixed rops
+    return Json.mkObj [("outs", Json.arr (outs.map Json.str))]
+  if let .ok kops := arrOf j "kops" then
+    let outs ← runKOps fixed (← intOf j "delay") kops
+    return Json.mkObj [("outs", Json.arr (outs.map Json.str))]
   if let .ok fops := arrOf j "fops" then
     let outs ← runFOps fixed (← intOf j "t0") (← strOf j "name") fops
     return Json.mkObj [("outs", Json.arr (outs.map Json.str))]
